@@ -147,6 +147,13 @@ def outcomes(sm: Module, qual: str = "SimpleCxxVisitor.on_namespace_start", scop
                 return isinstance(v, Obj) and v.cls in cn
             if f in ("typing.cast", "cast") and len(call.args) == 2:
                 return run.ev(call.args[1])
+            # a helper of the module, or a method of the scope class itself: interpreted from its source
+            if isinstance(call.func, ast.Name) and sm.has_func(call.func.id):
+                return run.call_def(sm.func(call.func.id), [run.ev(a) for a in call.args], {k.arg: run.ev(k.value) for k in call.keywords if k.arg})
+            if isinstance(call.func, ast.Attribute):
+                recv = run.ev(call.func.value)
+                if isinstance(recv, Obj) and sm.has_func(f"{recv.cls}.{call.func.attr}"):
+                    return run.call_def(sm.func(f"{recv.cls}.{call.func.attr}"), [recv] + [run.ev(a) for a in call.args], {k.arg: run.ev(k.value) for k in call.keywords if k.arg})
             raise Unsupported(f"call {norm(call)[:60]}")
 
         try:
